@@ -151,7 +151,7 @@ def progR (fresh : Nat) : Reader Prog := do
   | "igridset" => pure (imageGridSetProg none)
   | "bgridset" => pure (imageGridSetProg (some (← nat)))
   | "ipoke" => pure (imagePokeProg fresh)
-  | "tcopy" => pure (fun _ => transformCopy 10 0)
+  | "tcopy" => do let (c, _, _, _) ← tclassR; pure (copyProg c)
   | "tcond" => do let (c, cn, _, _) ← tclassR; pure (conditionProg c cn)
   | "tdata" => do let (c, _, _, _) ← tclassR; pure (dataProg c)
   | "tlink" => do let (c, _, _, _) ← tclassR; pure (linkProg c)
